@@ -110,6 +110,26 @@ def write_if_changed(path, content):
     return True
 
 
+# checks that use an extracted table without importing it through the theorem modules they hand to `model_tie`
+TABLE_USERS = {"CssOutputShape": ("C08", "C19"), "CssTables": ("C01",)}
+
+
+def depends_on_table(modules, table):
+    """does one of these Lean modules import GE.Extracted.<table>, directly or not"""
+    seen, todo = set(), list(modules)
+    while todo:
+        m = todo.pop()
+        if m in seen:
+            continue
+        seen.add(m)
+        if m == "GE.Extracted." + table:
+            return True
+        path = os.path.join(LEAN, *m.split(".")) + ".lean"
+        if os.path.exists(path):
+            todo += re.findall(r"^import\s+(GE\.[\w.]+)", open(path).read(), re.M)
+    return False
+
+
 class BrokenTie(Exception):
     """The model can no longer be tied to /repo (extractor pattern lost, build failure, …)."""
 
@@ -279,9 +299,11 @@ class Check:
         with its model-independent oracle, which is what may find the concrete failing input."""
         global MODEL_OK
         try:
+            lost = []
             if regen:
                 from . import extractors
                 extractors.regen_all()
+                lost = [L for L in extractors.LOST if self.pid in TABLE_USERS.get(L["table"], ()) or depends_on_table([m for m, _ in provers], L["table"])]
             for module, theorems in provers:
                 failed, log = self.prove(module, theorems)
                 for t in failed:
@@ -290,6 +312,16 @@ class Check:
                 ok, log = lake_build(["gedriver"])
                 if not ok:
                     raise BrokenTie("driver-build", log)
+            for L in lost:
+                # the regenerated half of the tie is lost for this table; the model that embeds it (as shipped) is run against the implementation
+                # right now on a stream that exercises every entry — a difference is a correspondence violation like any other
+                from . import fallback
+                if not driver or not fallback.run(self, L["key"]):
+                    raise BrokenTie("extract:" + L["key"], L["why"])
+                line = (f"TIE-NOTE: property={self.pid} extractor {L['key']} no longer finds its pattern in the source ({L['why']}); "
+                        f"table as shipped, tie re-established by the correspondence stream fallback:{L['key']}")
+                self.notes.append(line)
+                print(line)
             return True
         except BrokenTie as e:
             MODEL_OK = False
